@@ -263,3 +263,25 @@ def _dom_islittle(tier, seed):
     for a in _bo_arrays(tier, seed):
         if a.dtype.names is None:
             yield dict(args=[a])
+
+
+# ------------------------------------------------------------------------------------------------ Recfile.write (C15 frame, C04)
+contract("records.Write", params=dict(arr="opaque"), assumed=True, lang="c++", runtime=False,
+         why_assumed="C++ (records.cpp Records::Write): reads PyArray_DATA row by row and writes the bytes / formatted text; it never "
+                     "writes to the array (read from the source; bounded: bytes of the argument compared before and after)",
+         props=["C15"])
+
+_RECW = "obj:Recfile{robj:opaque:records,is_ascii:bool,nrows:int}"
+contract(
+    "esutil.recfile.Util.Recfile.write",
+    params=dict(self=_RECW, data="bo"),
+    variants=_VARIANTS and [dict(data="bo"), dict(data="bo:a"), dict(data="bo:a,b"), dict(data="bo:a,b,c")],
+    requires={"uniformly-ordered": _UNIFORM.replace("array", "data")},
+    ensures={
+        "caller's-table-untouched (bytes and declared byte order)":
+            "all(bo_bytes(data, f) == bo_bytes(old(data), f) and bo_order(data, f) == bo_order(old(data), f) for f in bo_fields(data))",
+        "row-count-advanced": "self.nrows >= old(self.nrows)",
+    },
+    modifies=["self.nrows"], post_types={"self.nrows": "int"},
+    props=["C15", "C04"], runtime=False,
+)
